@@ -145,6 +145,52 @@ class Ctx(object):
         self.inconclusive.extend(data['inconclusive'])
 
 
+# ------------------------------------------------------------ case guard
+
+def guarded(replay_of=None):
+    """Decorator for the per-case functions of the boundary workloads (first argument: ctx).
+    A case is a client of sigtools: it retrieves, calls, compares.  If an exception that the case
+    does not itself expect escapes from *inside sigtools* (the innermost sigtools frame is named
+    in the witness), the client did not get the answer the property promises: recorded as a
+    violation of the property under check, mechanism 'unexpected-<Type>-from-sigtools'.  An
+    exception that never passed through sigtools code is a bug of the harness: it makes the run
+    inconclusive (never a violation)."""
+    import functools
+    import traceback
+
+    def deco(fn):
+        @functools.wraps(fn)
+        def wrapper(ctx, *a, **k):
+            try:
+                return fn(ctx, *a, **k)
+            except env.Inconclusive:
+                raise
+            except Exception as e:
+                tb = traceback.extract_tb(e.__traceback__)
+                inside = [fr for fr in tb if env.in_sigtools(fr.filename)]
+                if inside:
+                    fr = inside[-1]
+                    rp = None
+                    if replay_of is not None:
+                        try:
+                            rp = replay_of(*a, **k)
+                        except Exception:
+                            rp = None
+                    ctx.violation(ctx.prop, 'CaseGuard', 'unexpected-%s-from-sigtools' % type(e).__name__,
+                                  '%s raised inside sigtools (%s:%d in %s) while the case %s was using it: %s' % (
+                                      type(e).__name__, os.path.basename(fr.filename), fr.lineno, fr.name,
+                                      fn.__name__, str(e)[:200]),
+                                  {'case': fn.__name__, 'arguments': repr(a)[:600],
+                                   'traceback_tail': [('%s:%d %s' % (os.path.basename(f.filename), f.lineno, f.name)) for f in tb[-6:]]},
+                                  rp or dict(workload='case', function=fn.__name__, arguments=repr(a)[:600]))
+                    return None
+                from . import monitor
+                monitor.INTERNAL_ERRORS.append((fn.__name__, 'CaseGuard', traceback.format_exc()))
+                return None
+        return wrapper
+    return deco
+
+
 # ------------------------------------------------------------ known findings
 
 def load_findings():
